@@ -213,7 +213,7 @@ func runC03(c *Ctx, r *Report) {
 
 func init() {
 	register("C03", &propDef{
-		explain: "Determinism and canonical-ending clauses decided on code shape: nothing on the formatter path (printers, parser, lexer, function text) ranges over a Go map or reads clock, randomness, environment or spawns goroutines (call-graph reachability; the detector is calibrated against the map ranges that do exist elsewhere in the module); map literals print in recorded order; block printing ends with exactly one Println at top level; plus the shared round-trip conditions whose violation makes output a non-fixpoint. Idempotence as such (second pass equals first, which depends on comment flags and neighbouring constructs) is not decided. Shares the C02 rule that a value-less return ends its block.",
+		explain: "Determinism and canonical-ending clauses decided on code shape: nothing on the formatter path (printers, parser, lexer, function text) ranges over a Go map or reads clock, randomness, environment or spawns goroutines (call-graph reachability; the detector is calibrated against the map ranges that do exist elsewhere in the module); map literals print in recorded order; block printing ends with exactly one Println at top level; plus the shared round-trip conditions whose violation makes output a non-fixpoint. Idempotence as such (second pass equals first, which depends on comment flags and neighbouring constructs) is not decided. Shares the C02 rule that a value-less return ends its block. Also shares the escape-decoding (C02.R4) and precedence-scoping (C02.R7) rules.",
 		assume:  []string{"token interning is pointer identity over equal values and cannot change printed text (tokens are only read through Type()/Literal())"},
 		run:     runC03,
 	})
